@@ -18,7 +18,7 @@ LEVEL = "model_checking"
 ENGINE = "WRK-api"
 TECHNIQUE = ("explicit-state search over embedding-API histories (each transition = run_query + consume k answers + "
              "drop, executed on the real Machine); invariant: every step's answers equal the fresh-machine reference")
-RULE = ("histories of depth <= d over 9 queries x consumption k in {0, 1, all}, each history on a fresh Machine; "
+RULE = ("blackboard family: all histories of depth <= 3 (4 thorough) over {bb_put red, bb_put blue, a 3-solution query doing bb_b_put consumed 0/1/2/all, bb_get} ending in bb_get; histories of depth <= d over 10 queries x consumption k in {0, 1, all}, each history on a fresh Machine; "
         "quick d=2 (all 27^2 histories + 27 singles), thorough d=3. Non-trivial: the history contains a partially "
         "consumed, throwing or failing query before its last step.")
 LEVEL_TEXT = ("all histories up to the depth bound are executed through Machine::run_query on fresh machines; a "
@@ -56,10 +56,83 @@ def steps():
     return [(qi, k) for qi in range(len(QUERIES)) for k in KS]
 
 
+# Blackboard family: the only state that legitimately survives a query is what
+# bb_put/2 stored; a backtrackable bb_b_put/2 made inside a query must be gone
+# once the query is over, however much of its answer stream was consumed.
+BB_QUERIES = [
+    "bb_put(c28key, red).",
+    "bb_put(c28key, blue).",
+    "member(X, [1,2,3]), bb_b_put(c28key, X).",
+    "bb_get(c28key, V).",
+]
+BB_STEPS = [(0, None), (1, None), (2, 0), (2, 1), (2, 2), (2, None), (3, None)]
+
+
+def bb_model(hist):
+    """expected answers of every bb_get step (None = key unset -> fails)"""
+    val = None
+    out = []
+    for (qi, k) in hist:
+        if qi == 0:
+            val = "red"
+        elif qi == 1:
+            val = "blue"
+        elif qi == 3:
+            out.append(val)
+    return out
+
+
+def run_bb_history(w, hist):
+    ops = [{"k": "query", "text": BB_QUERIES[qi], "take": k} for (qi, k) in hist]
+    w.rpc({"op": "new_machine"}, timeout=120)
+    try:
+        r = w.rpc({"op": "api", "ops": ops, "fresh_after": False}, timeout=20)
+    except pool.WorkerDied as d:
+        w.restart()
+        return None
+    return r["r"]
+
+
+def check_bb_history(w, hist, acc):
+    out = run_bb_history(w, hist)
+    want = bb_model(hist)
+    viol = None
+    if out is None:
+        viol = "run_query never returned"
+    else:
+        gi = 0
+        for (qi, k), res in zip(hist, out):
+            if "panic" in res:
+                viol = "panic@%s" % relsrc(res.get("where", ""))
+                break
+            if qi == 3:
+                exp = want[gi]
+                gi += 1
+                got = res.get("answers")
+                sols = [a["bindings"].get("V", {}).get("a") for a in got if isinstance(a, dict) and "bindings" in a]
+                if exp is None:
+                    ok = sols == [] and got in (["false"], [])
+                else:
+                    ok = sols == [exp]
+                if not ok:
+                    viol = "bb_get sees %s, expected %s" % (sols or got, exp)
+                    break
+    acc.transitions += len(hist)
+    acc.states += 1
+    acc.case(any(qi == 2 and k is not None and k != 0 or (qi == 2 and k in (1, 2)) for (qi, k) in hist), "bb_ok" if viol is None else "bb_violation",
+             sample={"history": [[BB_QUERIES[qi], "all" if k is None else k] for (qi, k) in hist]})
+    if viol:
+        kinds = "".join("PPBG"[qi] + ("" if k is None else str(k)) for (qi, k) in hist)
+        acc.violation("blackboard: %s" % viol.split(",")[0][:80], {"bb_history": [[qi, k] for (qi, k) in hist]},
+                      expected=want, observed=out)
+
+
 def shards(tier):
     d = 3 if tier == "thorough" else 2
     st = steps()
     sh = [["single"]]
+    for s0 in range(len(BB_STEPS)):
+        sh.append(["bb", 4 if tier == "thorough" else 3, s0])
     # shard by first step
     for s in range(len(st)):
         sh.append(["hist", d, s])
@@ -233,6 +306,16 @@ def check_history(w, hist, acc):
 
 def run_shard(w, shard, tier):
     acc = px.ShardAcc()
+    if shard[0] == "bb":
+        _, d, s0 = shard
+        first = BB_STEPS[s0]
+        for depth in range(1, d + 1):
+            for rest in itertools.product(BB_STEPS, repeat=depth - 1):
+                hist = [first] + list(rest)
+                if hist[-1][0] != 3:
+                    continue   # only histories that end in an observation
+                check_bb_history(w, hist, acc)
+        return acc.result()
     st = steps()
     if shard[0] == "single":
         ref = reference(w)
@@ -270,6 +353,12 @@ def run_shard(w, shard, tier):
 
 def recheck(w, case, tier):
     acc = px.ShardAcc()
+    if "bb_history" in case:
+        check_bb_history(w, [(qi, k) for (qi, k) in case["bb_history"]], acc)
+        if acc.violations:
+            v = acc.violations[0]
+            return {"sig": v["sig"], "case": case, "expected": v["expected"], "observed": v["observed"]}
+        return None
     if "single" in case:
         ref = reference(w)
         qi = case["single"]
